@@ -9,7 +9,7 @@ OWN = {"P01_once"}
 def plans(ctx):
     if ctx.tier == "quick":
         # re-announcement of live ids, D/T after a verdict, replies (stale tags) after a verdict, junk
-        return [R.Plan("qr", "S_q1", emit_mod=60, max_inst=2, max_pw=1, stray=1, junk=True)]
+        return [R.Plan("qr", "S_q1", emit_mod=100, max_inst=2, max_pw=1, stray=1, junk=True)]
     return [R.Plan("qr", "S_q1", emit_mod=12, max_inst=2, max_pw=1, stray=2, junk=True),
             R.Plan("qr3", "S_t1d", emit_mod=20, max_inst=3, max_pw=1, stray=1),
             R.Plan("t1c", "S_t1c", emit_mod=12, max_inst=1, max_pw=2),
